@@ -301,7 +301,9 @@ RULE = ("(a) terms of the shared `terms` family with aliases at every level (p=0
         "object, a different object with a selected name, or an un-selected name; (c) INSERT ... VALUES rows; (d) a malformed "
         "stream (empty criteria, CASE without WHEN, empty alias); (e) nested statements of the shared queries family: aliased items "
         "with GROUP BY / ORDER BY at every level, sub-queries of another class in FROM / JOIN / select list / IN / EXISTS, set "
-        "operations with branch-specific aliases and a chain ORDER BY (model: coq/Query.v). Alias names are sentinels (zq..) so the oracle can count "
+        "operations with branch-specific aliases and a chain ORDER BY (model: coq/Query.v); (f) the same cases with alias VALUES "
+        "that coincide with something else (own column name, another column, table name, table alias, keyword, empty string, "
+        "blank inside, mixed case), judged by a renaming-commutes oracle. Otherwise alias names are sentinels (zq..) so the oracle can count "
         "them per clause. Non-trivial = some aliased object sits in a non-select position or inside another expression, or a "
         "GROUP BY/ORDER BY element is aliased; distinct by structural hash.")
 TRUSTED = [
@@ -885,9 +887,14 @@ def judge_query(spec, text, env, out):
         nested_env["group_ref"] = None          # an Oracle/MSSQL builder inside another dialect: either rendering is accepted
     here_group = nested_env["group_ref"]
 
-    def sub(qspec, seg):
-        inner, _rest = strip_parens(seg[seg.index("("):]) if not seg.startswith("(") else strip_parens(seg)
+    def sub(qspec, seg, where=None):
+        inner, rest = strip_parens(seg[seg.index("("):]) if not seg.startswith("(") else strip_parens(seg)
         judge_query(qspec, inner, nested_env, out)
+        a = qspec.get("alias")
+        if where and a and not rest.rstrip('"`').endswith(a):
+            # an aliased sub-query in the select list / as a source must carry its alias (sub1.x refers to it)
+            out.append({"signature": ["C13", root_cls(qspec) + "Builder", where, "alias-missing"],
+                        "what": "sub-query aliased %s is rendered without its alias in %r" % (a, seg[-60:])})
 
     # select list
     sel_parts = split_top(segs["select"][0])
@@ -908,17 +915,17 @@ def judge_query(spec, text, env, out):
         if it[0] == "t":
             out += judge_element(it[1], seg, "select", env["conv"], memo, names, False, defs)
         elif it[0] == "sub":
-            sub(it[1], seg)
+            sub(it[1], seg, "select")
     # sources
     fparts = split_top(segs["from"][0])
     if len(fparts) != len(spec.get("from", [])):
         raise Unreadable("FROM has %d sources, expected %d" % (len(fparts), len(spec.get("from", []))))
     for src, seg in zip(spec.get("from", []), fparts):
         if src[0] == "q":
-            sub(src[1], seg)
+            sub(src[1], seg, "from")
     for (how, src, cond), jseg, oseg in zip(spec.get("joins", []), segs.get("join", []), segs.get("on", [])):
         if src[0] == "q":
-            sub(src[1], jseg)
+            sub(src[1], jseg, "join")
         if cond[0] == "on" and cond[1][0] == "t":
             out += judge_element(cond[1][1], oseg, "non-select", env["conv"], memo, names, False, defs)
     for clause in ("where", "having"):
@@ -970,6 +977,8 @@ def oracle_query(case, text):
 
 def oracle(case, outcome):
     text = outcome.get("text") or ""
+    if case.get("collide"):
+        return oracle_collide(case, text)
     if text.startswith("!") or text == "":
         return []
     memo = {}
@@ -1382,6 +1391,211 @@ def gen_nested(rng, tier):
     return {"kind": "q", "q": g.setop(cls) if rng.random() < 0.25 else g.select(cls, 0)}
 
 
+# ---- alias VALUES that coincide with something else in the statement -----------------------------------------
+KEYWORDS = ["select", "order", "group", "from", "as", "null", "desc", "by"]
+CATEGORIES = ["own-column", "other-column", "table-name", "table-alias", "keyword", "empty", "spaced", "case"]
+
+
+def _map_term_aliases(t, f):
+    t = map_children(t, lambda x: _map_term_aliases(x, f))
+    a = alias_of(t)
+    if a is not None:
+        t = with_alias(t, f(a, t))
+    return t
+
+
+def _map_q_aliases(q, f):
+    q = dict(q)
+    mt = lambda t: _map_term_aliases(t, f)   # noqa: E731
+
+    def item(i):
+        k = i[0]
+        if k == "t":
+            return ["t", mt(i[1])]
+        if k == "sub":
+            return ["sub", _map_q_aliases(i[1], f)]
+        if k == "in":
+            return ["in", mt(i[1]), _map_q_aliases(i[2], f), i[3]]
+        if k == "exists":
+            return ["exists", _map_q_aliases(i[1], f), i[2]]
+        return i
+    if q["k"] == "set":
+        q["base"] = _map_q_aliases(q["base"], f)
+        q["ops"] = [[op, _map_q_aliases(b, f)] for op, b in q["ops"]]
+        q["orderby"] = [[mt(t), d] for t, d in q.get("orderby", [])]
+        return q
+    src = lambda x: ["q", _map_q_aliases(x[1], f)] if x[0] == "q" else x   # noqa: E731
+    q["from"] = [src(x) for x in q.get("from", [])]
+    q["joins"] = [[h, src(x), (["on", item(c[1])] if c[0] == "on" else c)] for h, x, c in q.get("joins", [])]
+    q["selects"] = [item(i) for i in q.get("selects", [])]
+    for k in ("where", "having"):
+        if q.get(k) is not None:
+            q[k] = item(q[k])
+    if q.get("groupby"):
+        q["groupby"] = [item(i) for i in q["groupby"]]
+    if q.get("orderby"):
+        q["orderby"] = [[item(i), d] for i, d in q["orderby"]]
+    return q
+
+
+def map_case_aliases(case, f):
+    """the same case with every TERM alias a replaced by f(a, node) (sub-query / table aliases are left alone)"""
+    c = dict(case)
+    mt = lambda t: _map_term_aliases(t, f)   # noqa: E731
+    if c["kind"] == "term":
+        c["t"] = mt(c["t"])
+    elif c["kind"] == "ins":
+        c["row"] = [mt(x) for x in c["row"]]
+    elif c["kind"] == "q":
+        c["q"] = _map_q_aliases(c["q"], f)
+    else:
+        c["sel"] = [mt(x) for x in c["sel"]]
+        for k in ("on", "where", "having"):
+            if c.get(k) is not None:
+                c[k] = mt(c[k])
+        c["group"] = [mt(x) for x in c.get("group") or []]
+        c["order"] = [[mt(x), d] for x, d in c.get("order") or []]
+    return c
+
+
+def alias_names(case):
+    """distinct term alias names of a case in first-occurrence order, with one node carrying each"""
+    seen = {}
+
+    def f(a, node):
+        seen.setdefault(a, node)
+        return a
+    map_case_aliases(case, f)
+    return seen
+
+
+def category_of(name, node):
+    if name == "":
+        return "empty"
+    if node[0] == "field" and node[1] == name:
+        return "own-column"
+    if name in tf.NAMES or name in ("x", "n"):
+        return "other-column"
+    if name in ("t", "u", "orders"):
+        return "table-name"
+    if name in ("ta", "sub1", "sub2", "z", "sq0"):
+        return "table-alias"
+    if name.lower() in KEYWORDS:
+        return "keyword"
+    if " " in name:
+        return "spaced"
+    return "case" if name != name.lower() else "other"
+
+
+def collide(rng, case):
+    """rename some sentinel aliases of a generated case to values that coincide with something else in the statement"""
+    names = alias_names(case)
+    sent = [n for n in names if SENT_RE.fullmatch(n)]
+    if not sent:
+        return None
+    rng.shuffle(sent)
+    mapping, used = {}, set(names)
+    for n in sent[:rng.choice([1, 1, 2, 3])]:
+        node = names[n]
+        cat = rng.choice(CATEGORIES)
+        if cat == "own-column":
+            flds = [x for x, _ in nodes(node) if x[0] == "field"]
+            v = node[1] if node[0] == "field" else (rng.choice(flds)[1] if flds else rng.choice(tf.NAMES))
+        elif cat == "other-column":
+            v = rng.choice(tf.NAMES + ["x"])
+        elif cat == "table-name":
+            v = rng.choice(["t", "u", "orders"])
+        elif cat == "table-alias":
+            v = rng.choice(["ta", "sub1", "sq0", "z"])
+        elif cat == "keyword":
+            v = rng.choice(KEYWORDS)
+        elif cat == "empty":
+            v = ""
+        elif cat == "spaced":
+            v = "my alias"
+        else:
+            v = rng.choice(["Id", "zQa", "COL"])
+        if v in used:
+            continue
+        used.add(v)
+        mapping[n] = v
+    if not mapping:
+        return None
+    out = map_case_aliases(case, lambda a, node: mapping.get(a, a))
+    out["collide"] = True
+    return out
+
+
+XS_RE = re.compile(r"zqX\d+")
+
+
+def oracle_collide(case, text):
+    """rendering must commute with renaming the aliases: the same statement with every alias value replaced by a fresh
+    sentinel name, rendered, and the sentinels written back, has to be the text of the original statement"""
+    names = alias_names(case)
+    fwd = {n: "zqX%d" % i for i, n in enumerate(names)}
+    back = {v: k for k, v in fwd.items()}
+    plain = {k: v for k, v in case.items() if k != "collide"}
+    t_all = XS_RE.sub(lambda m: back[m.group(0)], run_impl(map_case_aliases(plain, lambda a, node: fwd[a]))["text"])
+    if t_all == text:
+        return []
+    # attribute: the first single name whose renaming alone changes the text
+    culprit, cat, shown = "?", "?", t_all
+    for n, node in names.items():
+        one = run_impl(map_case_aliases(plain, lambda a, nd: fwd[a] if a == n else a))["text"]
+        one = XS_RE.sub(lambda m: back[m.group(0)], one)
+        if one != text:
+            cat = category_of(n, node)
+            try:
+                culprit = "empty-alias" if cat == "empty" else owner_name(bld(node, {}))
+            except Exception:  # noqa
+                culprit = node[0]
+            shown = one
+            break
+    return [{"signature": ["C13", culprit, cat, "alias-value-dependent"],
+             "what": "the rendering depends on the VALUE of an alias: with the alias renamed to a fresh name and written back the "
+                     "statement reads %r, but pypika renders %r" % (shown, text)}]
+
+
+def gen_collide(rng, tier):
+    for _ in range(20):
+        x = rng.random()
+        base = gen_stmt(rng, tier) if x < 0.6 else (gen_nested(rng, tier) if x < 0.85 else
+                                                    (gen_term(rng, tier) if x < 0.95 else gen_ins(rng, tier)))
+        c = collide(rng, base)
+        if c is not None:
+            return c
+    return base
+
+
+def collide_grid(classes=("Query", "OracleQuery", "SnowflakeQuery", "ClickHouseQuery")):
+    """every consuming / alias-ignoring kind x every category of colliding alias value, selected + grouped + ordered (flat
+    statement, with a join so that fields are table-qualified), and the same field shape in a nested statement / set operation"""
+    out = []
+    vals = {"own-column": "a", "other-column": "b", "table-name": "t", "table-alias": "sub1", "keyword": "order", "empty": "",
+            "spaced": "my alias", "case": "Id"}
+    for cls in classes:
+        for k in CONSUMING + ["isnull", "vali", "cplx", "tuple"]:
+            for cat, v in vals.items():
+                x = simple_top(k, v)
+                if k == "field":
+                    x = F("a", v, T_T)
+                out.append(dict(stmt(cls, sel=[x, F("c", "zqB")], on=["basic", "eq", F("a", None, T_T), F("a", None, T_U), None],
+                                     group=[x], order=[[x, "desc"]]), collide=True))
+                out.append(dict(stmt(cls, sel=[x]), collide=True))
+        for cat, v in vals.items():
+            x = F("a", v)
+            inner = {"k": "sel", "cls": "Query", "from": [["t", ["t", [], None]]], "joins": [], "selects": [["t", x], ["t", F("b", "zqB")]],
+                     "groupby": [["t", x]], "orderby": [[["t", x], None]], "alias": "sub1"}
+            out.append({"kind": "q", "collide": True,
+                        "q": {"k": "sel", "cls": cls, "from": [["q", inner]], "joins": [], "selects": [["t", F("a", v)]],
+                              "orderby": [[["t", F("a", v)], "asc"]]}})
+            b1 = {"k": "sel", "cls": cls, "from": [["t", ["t", [], None]]], "joins": [], "selects": [["t", x]]}
+            b2 = {"k": "sel", "cls": cls, "from": [["t", ["u", [], None]]], "joins": [], "selects": [["t", F("b", "zqC")]]}
+            out.append({"kind": "q", "collide": True, "q": {"k": "set", "base": b1, "ops": [["union", b2]], "orderby": [[x, None]]}})
+    return out
+
+
 def gen_cases(rng, tier):
     n = 460 if tier == "quick" else 6000
     out = []
@@ -1397,6 +1611,8 @@ def gen_cases(rng, tier):
             out.append(gen_malformed(rng, tier))
     for _ in range(300 if tier == "quick" else 3000):
         out.append(gen_nested(rng, tier))
+    for _ in range(250 if tier == "quick" else 2500):
+        out.append(gen_collide(rng, tier))
     return out
 
 
@@ -1507,7 +1723,7 @@ def corpus():
         proved.append(stmt(cls, sel=[ex_m, ex_s], on=["basic", "eq", F("a"), F("b"), None],
                            where=["basic", "gt", ex_m, I(0), None], group=[ex_m], having=["basic", "gt", ex_s, I(1), None],
                            order=[[ex_m, "desc"], [ex_s, None], [F("z", "zz"), None]]))
-    out = proved + grid_cases(("Query",)) + nested_grid()
+    out = proved + grid_cases(("Query",)) + nested_grid() + collide_grid()
     # alias quoting of every consuming kind in the classes whose convention differs (sentinel names)
     for cls in ("SnowflakeQuery", "PostgreSQLQuery", "OracleQuery", "MSSQLQuery", "ClickHouseQuery", "MySQLQuery"):
         for k in CONSUMING + ["an", "isnull", "cplx", "nega"]:
@@ -1627,4 +1843,7 @@ def targeted_search(rng, broken, mism_cases):
         out.append(gen_stmt(rng, "quick"))
     for _ in range(1500):
         out.append(gen_nested(rng, "quick"))
+    out += collide_grid([py for _, py in CLASSES])
+    for _ in range(1500):
+        out.append(gen_collide(rng, "quick"))
     return out
